@@ -317,8 +317,8 @@ func parseFrontendStream(stream []byte) ([]pgproto3.FrontendMessage, error) {
 
 type rawFrontend struct{ b []byte }
 
-func (*rawFrontend) Frontend()                          {}
-func (*rawFrontend) Decode([]byte) error                { return nil }
+func (*rawFrontend) Frontend()                           {}
+func (*rawFrontend) Decode([]byte) error                 { return nil }
 func (r *rawFrontend) Encode(dst []byte) ([]byte, error) { return append(dst, r.b...), nil }
 
 // c12ClientToDB compares the client->proxy and proxy->database streams message by message:
